@@ -1102,6 +1102,7 @@ func (c *Ctx) feederGoSites() ([]*ssa.Go, map[*ssa.Function]bool) {
 // of the process. Paths are enumerated through the manager's and the operator's methods.
 func init() {
 	register("C03", "C03.R12", ruleC03R12)
+	register("C03", "C01.R8", ruleC01R8) // "recovered chunks first": the recovery is queued before Start returns
 	register("C19", "C03.R12", ruleC03R12)
 }
 
